@@ -89,6 +89,12 @@ def cases(tier, seed):
     hier = hier.replace('.names s q r\n011 1\n1-0 1\n.names q r\n0 1\n', '.names s q t r\n011 1\n1-0 1\n')
     hier += '.model wrap\n.inputs clk u v\n.outputs w\n.subckt cell clk=clk p=u q=v r=m\n.names m u w\n01 1\n10 1\n.end\n'
     out.append({'k': 'blif', 'text': hier, 'K': 4, 'tag': 'hier'})
+    # signal names that collide with names the importer makes up (the register of latch output q is internally 'q_reg')
+    t = ('.model top\n.inputs clk a b\n.outputs o p\n.latch n1 q re clk 0\n.names a q n1\n10 1\n01 1\n.names a b q_reg\n11 1\n'
+         '.names q q_reg o\n11 1\n.names q_reg p\n1 1\n.end\n')
+    out.append({'k': 'blif', 'text': t, 'K': 4, 'tag': 'names:q_reg'})
+    t2 = t.replace('.names a b q_reg', '.names a b tmp0').replace('q_reg', 'tmp0')
+    out.append({'k': 'blif', 'text': t2, 'K': 4, 'tag': 'names:tmp0'})
     # vector ports
     for n in (2, 3, 12):
         for merge in (True, False):
